@@ -284,11 +284,13 @@ pub fn plan(case: &Case, sh: &Shared) -> Plan {
             let module_src = format!("{outer_body},\n{}", export("m"));
             modules.push(("mod1".to_string(), module_src));
             let spliced_block = format!("{{ {outer_spliced},\n{} }}", export("m"));
-            // how main uses each export: closures are called
+            // how main uses each export: closures are called, labelled tuples are also read
+            // through a second accessor (`%mod1.e3.f0`)
             let use_of = |acc: &dyn Fn(usize) -> String| -> String {
-                let its: Vec<String> = (0..n).map(|j| match ks[j] {
-                    K::Clo => format!("[] {}", acc(j)),
-                    K::CloP => format!("7 {}", acc(j)),
+                let its: Vec<String> = (0..n).map(|j| match (&ks[j], &module[j]) {
+                    (K::Clo, _) => format!("[] {}", acc(j)),
+                    (K::CloP, _) => format!("7 {}", acc(j)),
+                    (K::Tup, B::Tup { labelled: true, items, .. }) if j > 0 && !items.is_empty() => format!("[{}, &{}.f0]", acc(j), acc(j)),
                     _ => acc(j),
                 }).collect();
                 format!("[{}]", its.join(", "))
